@@ -252,3 +252,76 @@ def match_dict_ref(target, spec, scope):
     if needed:
         raise MatchError("target missing expected keys: {0}", ', '.join([bbrepr(r) for r in needed]))
     return out
+
+
+def check_init_ref(self, spec=T, **kwargs):
+    """Check(spec, validate=..., type=..., instance_of=..., equal_to=..., one_of=..., default=...): each of validate / type / instance_of
+    becomes a tuple (a single value is wrapped; every member must be callable / a type; type and instance_of must not be empty);
+    equal_to becomes the one-element candidate tuple and excludes one_of; one_of must be a non-empty iterable; with no condition at
+    all the validator is truthiness; unknown keywords are a TypeError; the original keywords are remembered for the repr"""
+    self.spec = spec
+    self._orig_kwargs = dict(kwargs)
+    self.default = kwargs.pop('default', RAISE)
+
+    def normalise(name, cond, func, val, can_be_empty=True):
+        if val is _MISSING:
+            return ()
+        if not is_iterable(val):
+            val = (val,)
+        elif not val and not can_be_empty:
+            raise ValueError('expected %r argument to contain at least one value, not: %r' % (name, val))
+        for v in val:
+            if not func(v):
+                raise ValueError('expected %r argument to be %s, not: %r' % (name, cond, v))
+        return val
+
+    def truthy(val):
+        return bool(val)
+    validate = kwargs.pop('validate', _MISSING if kwargs else truthy)
+    type_arg = kwargs.pop('type', _MISSING)
+    instance_of = kwargs.pop('instance_of', _MISSING)
+    equal_to = kwargs.pop('equal_to', _MISSING)
+    one_of = kwargs.pop('one_of', _MISSING)
+    if kwargs:
+        raise TypeError('unexpected keyword arguments: %r' % kwargs.keys())
+    self.validators = normalise('validate', 'callable', callable, validate)
+    self.instance_of = normalise('instance_of', 'a type', lambda x: isinstance(x, type), instance_of, False)
+    self.types = normalise('type', 'a type', lambda x: isinstance(x, type), type_arg, False)
+    if equal_to is not _MISSING:
+        self.vals = (equal_to,)
+        if one_of is not _MISSING:
+            raise TypeError('expected "one_of" argument to be unset when "equal_to" argument is passed')
+    elif one_of is not _MISSING:
+        if not is_iterable(one_of):
+            raise ValueError('expected "one_of" argument to be iterable , not: %r' % one_of)
+        if not one_of:
+            raise ValueError('expected "one_of" to contain at least one value, not: %r' % (one_of,))
+        self.vals = one_of
+    else:
+        self.vals = ()
+
+
+def mtype_call_ref(self, spec):
+    """M(spec): only T-style specs may be wrapped; the result compares the sub-spec's value"""
+    if not isinstance(spec, type(T)):
+        raise TypeError("M() only accepts T-style specs, not %s" % type(spec).__name__)
+    return _MSubspec(spec)
+
+
+def regex_init_ref(self, pattern, flags=0, func=None):
+    """Regex(pattern, flags, func): func must be one of None / re.match / re.search / re.fullmatch; the compiled pattern's method of the
+    same name is used (None means fullmatch); pattern, flags and func are remembered for the repr"""
+    if func not in _RE_VALID_FUNCS:
+        raise _RE_FUNC_ERROR
+    regex = re.compile(pattern, flags)
+    if func is re.match:
+        match_func = regex.match
+    elif func is re.search:
+        match_func = regex.search
+    elif _RE_FULLMATCH:
+        match_func = regex.fullmatch
+    else:
+        regex = re.compile(f"(?:{pattern})\\Z", flags)
+        match_func = regex.match
+    self.flags, self.func = flags, func
+    self.match_func, self.pattern = match_func, pattern
